@@ -54,7 +54,7 @@ func NewFixture() *Fixture { return NewFixtureOpts(true) }
 // third account T then also holds a delegation with pending rewards.
 func NewFixtureOpts(withGrants bool) *Fixture {
 	cp := coinomicstypes.DefaultParams()
-	w := world.New(world.Options{NumAccounts: 5, NumVals: 2, Coinomics: &cp, Balance: e17(100)})
+	w := world.New(world.Options{NumAccounts: 5, NumVals: 2, Coinomics: &cp, Balance: e17(100), ExtraCoins: sdk.NewCoins(sdk.NewInt64Coin("atest", 1000000000))})
 	f := &Fixture{W: w, S: 1, Wd: 2, T: 3}
 	f.ABIs = precomp.Load(w)
 	ctx := w.Ctx()
